@@ -163,6 +163,19 @@ type Params struct {
 	ExhaustiveMax int    // enumerate all subsets when pending pieces <= this
 	PointStride   int    // explore every n-th non-critical point (1 = all)
 	Workers       int
+	// Only, when set, restricts exploration at depth d to the point and variant
+	// named by Only[d-1] (replay mode).
+	Only []OnlySel `json:",omitempty"`
+	// RetryPrefix makes the continuation re-submit a prefix of a torn in-flight
+	// batch (same sizes), as raft does after a crash, so that stale frames of the
+	// torn batch sit right behind the new commit.
+	RetryPrefix bool
+}
+
+// OnlySel names one crash (call string and variant name).
+type OnlySel struct {
+	Call    string
+	Variant string
 }
 
 // Engine runs workloads.
@@ -386,8 +399,14 @@ func (e *Engine) RunWorkload(wl *Workload) {
 func (e *Engine) explore(wl *Workload, points []*Point, rng *rand.Rand, depth int, replay func(map[string]any) map[string]any) {
 	c := e.C
 	for pi, pt := range points {
+		if len(e.P.Only) >= depth && e.P.Only[depth-1].Call != pt.Call.String() {
+			continue
+		}
+		if len(e.P.Only) > 0 && len(e.P.Only) < depth {
+			continue
+		}
 		critical := pt.Call.Kind == simfs.KSync || pt.Call.Kind == simfs.KMetaCommit || pt.Call.Kind == simfs.KCreate || pt.Call.Kind == simfs.KDelete
-		if depth == 1 && e.P.PointStride > 1 && !critical && pi%e.P.PointStride != 0 {
+		if depth == 1 && e.P.PointStride > 1 && !critical && pi%e.P.PointStride != 0 && len(e.P.Only) == 0 {
 			continue
 		}
 		pend := pt.Snap.PendingInfo()
@@ -395,10 +414,16 @@ func (e *Engine) explore(wl *Workload, points []*Point, rng *rand.Rand, depth in
 		if depth > 1 {
 			budget = e.P.NestedBudget
 		}
-		vs := simfs.StandardVariants(len(pend.Pieces), pend.DirOps, rng, budget, e.P.ExhaustiveMax)
+		if len(e.P.Only) >= depth {
+			budget = 0
+		}
+		vs := simfs.StandardVariants(len(pend.Pieces), pend.DirOps, rng, budget, e.P.ExhaustiveMax, wl.Seed*31+int64(pt.Call.Seq)*7919+int64(depth))
 		c.Count("points", 1)
 		c.Distinct("point_kinds", fmt.Sprintf("%s/%s/stage%d", pt.Phase, pt.Call.Kind, min(pt.Call.Stage, 2)))
 		for _, v := range vs {
+			if len(e.P.Only) >= depth && e.P.Only[depth-1].Variant != v.Name {
+				continue
+			}
 			img := pt.Snap.Image(v)
 			e.checkRecovery(wl, pt, v, img, rng, depth, func(extra map[string]any) map[string]any {
 				m := replay(extra)
@@ -497,7 +522,7 @@ func (e *Engine) checkRecovery(wl *Workload, pt *Point, v simfs.Variant, img *si
 	if match == nil {
 		f := classifyMismatch(pt, legal, obs)
 		f.desc = fmt.Sprintf("after crash at %s (%s, variant %s, in-flight %s): %s", pt.Call, pt.Phase, v.Name, opString(pt.InFlight), f.desc)
-		e.report(f, replay(map[string]any{"observed_first": obs.First, "observed_last": obs.Last}))
+		e.report(f, replay(map[string]any{"observed_first": obs.First, "observed_last": obs.Last, "meta_before_open": metaBrief(metaBefore), "meta_after_open": metaBrief(img.MetaSnapshot()), "files_before_open": preFiles}))
 		return
 	}
 	if len(legal) > 1 {
@@ -541,7 +566,7 @@ func (e *Engine) checkRecovery(wl *Workload, pt *Point, v simfs.Variant, img *si
 		s.close()
 		img.SetHook(nil)
 		pts := rec.points
-		if e.P.NestedPoints > 0 && len(pts) > e.P.NestedPoints {
+		if e.P.NestedPoints > 0 && len(pts) > e.P.NestedPoints && len(e.P.Only) == 0 {
 			// keep all Open-phase points first (they are the "crash inside recovery" ones), sample the rest
 			var openPts, rest []*Point
 			for _, p := range pts {
@@ -929,3 +954,11 @@ func behaviour() simfs.Behaviour {
 
 // BehaviourUsed returns the calibrated behaviour table.
 func BehaviourUsed() simfs.Behaviour { return behaviour() }
+
+func metaBrief(m *simfs.MetaState) []string {
+	out := []string{fmt.Sprintf("next=%d", m.State.NextSegmentID)}
+	for _, s := range m.State.Segments {
+		out = append(out, fmt.Sprintf("id=%d base=%d min=%d max=%d sealed=%v indexStart=%d", s.ID, s.BaseIndex, s.MinIndex, s.MaxIndex, !s.SealTime.IsZero(), s.IndexStart))
+	}
+	return out
+}
